@@ -3,7 +3,7 @@ results of library calls do not depend on the calls made before."""
 from ..gen import cells as G
 from ..gen import scripts as S
 from .. import heapobs as O
-from ..translate import heapsrc
+from ..translate import heapsrc, bsops
 
 SPEC = dict(
     manifest=dict(
@@ -37,11 +37,17 @@ SPEC = dict(
              'first; load_uint(0) raises). c08_src_history: ONE theorem over the whole regenerated alphabet - any interleaving of the eleven copy / '
              'derive methods, store_ref, load_ref, the bit-moving loads / stores (any receivers, any arguments) and the remaining hand-model '
              'transitions keeps Sep / WF / Coh and leaves every cell exactly as it was. (Builder.store_builder does not exist in the library.) '
-             'Cell(bits, refs): c08_src_ctor_step_partial - Cell.get_data_bytes, the only helper of __init__ that touches a bit array, is regenerated and proved to pad a COPY '
-             '(every existing container, list and object untouched); that __init__ stores the two pointers it is given is a check of the source text. '
-             'Still hand model + sampled correspondence: the rest of Cell.__init__ (cellCtor as a whole), the cells of '
-             'Boc.deserialize, hash / to_boc, the other typed loads / stores (store_int / store_bytes / store_coins, load_int / load_bytes ... : same '
-             'containers, other encodings), composite parsers.',
+             'Cell(bits, refs) as a whole: c08_src_ctor_step - Cell.__init__ is regenerated at the alias level (the pointer stores are read off the source, every other '
+             'attribute is a cache computed by methods INSPECTED to only read .bits / .refs, except get_data_bytes which is translated and run as a scratch '
+             'call: it pads a COPY) and proved equal to the model step cellCtor: the new cell points at the caller\'s own two containers, nothing else is '
+             'allocated or written; the constructor is part of the alphabet of c08_src_history. '
+             'Still hand model + sampled correspondence: the VALUE part of the constructor (construct = C01/C02\'s tie), the cells of '
+             'Boc.deserialize, hash / to_boc, composite parsers. '
+             'TYPED STORES / LOADS (c08_src_typed_ops_own_containers, Properties/C08Typed.lean): every store_* of Generated/BuilderOps.lean (18 methods) only '
+             'appends to the builder\'s own bit array / list - partial writes of a raising call included - and every load_* / preload_* / skip_bits of '
+             'Generated/SliceOps.lean (27 methods) only deletes a prefix of the slice\'s own bit array and moves its own ref_offset forward, never past the '
+             'end; each family through ONE generic heap lemma (liftB_ownB / liftS_ownS): invariant kept, nothing allocated, no other container, record '
+             'or cell changed. ref_offset <= len(refs) is now part of WF (WF.offLe), so c08_src_history has no side condition.',
         level_note='For the eleven copy / derive methods: the translator harness/translate/pyheap.py with the declared interface of heapsrc.py '
                    '(attribute -> record field, x.copy() / x[k:] = a new container, Slice(..) / Cell(..) keep the pointers given, Builder() = two new '
                    'empty containers; inside to_builder store_cell / store_slice are still read as the model\'s storeFrom), validated on every change '
@@ -57,8 +63,10 @@ SPEC = dict(
         technique='Lean 4 invariant proof over a heap model (hand model; the copy / derive glue regenerated from source by an alias-graph '
                   'translator and proved equal to the model step) + differential alias-graph correspondence with the library',
     ),
-    translators=[('cell.py / slice.py / builder.py copy + derive glue->Generated/HeapSrc.lean', heapsrc.regenerate)],
-    lean_targets=['TonVerif.Proofs.SrcHeap'],
+    translators=[('cell.py / slice.py / builder.py copy + derive glue->Generated/HeapSrc.lean', heapsrc.regenerate),
+                 ('builder.py/tvm_bitarray.py store_* methods->Generated/BuilderOps.lean', bsops.regenerator('BuilderOps')),
+                 ('slice.py/tvm_bitarray.py load_*/preload_* methods->Generated/SliceOps.lean', bsops.regenerator('SliceOps'))],
+    lean_targets=['TonVerif.Proofs.SrcHeap', 'TonVerif.Proofs.SrcHeapOps'],
     design_ref='DESIGN.md §6 C08',
     rule='seeded random histories (<= 40 steps) over a pool that starts with a small cell DAG (fresh, plain-bitarray, TvmBitarray, '
          'shared-container and exotic cells, dictionaries, a VmStack, a StateInit): derive / load / store / observe / boc round trip / '
@@ -1649,6 +1657,8 @@ def fresh_check(ctx, records, rng):
                      'than at the end of its history', inp, got, out)
 
 
+SPEC['property_modules'] = list(SPEC.get('property_modules', [])) + ['C08Typed']
+
 SRC_CELLS = ['cf:101:-:-1', 'cf:0110:0:-1', 'cf:-:0.1.0.1:-1', 'cf:' + '10' * 511 + '1:-:-1', 'cf:' + heapsrc.LIB_BITS + ':-:2']
 
 
@@ -1672,6 +1682,8 @@ SRC_BITS_HISTS = {
     'load_uint': [['dv:1:begin_parse', 'lu:5:2', 'lu:5:1', 'lu:5:5', 'ob:1:hash', 'dv:5:to_cell'], ['dv:0:begin_parse', 'lu:5:3', 'lu:5:1']],
     'preload_uint': [['dv:1:begin_parse', 'lu:5:2', 'lu:5:1', 'ob:1:hash', 'dv:5:to_cell']],
     # Cell.get_data_bytes (the constructor's helper): cells built from the caller's own plain / Tvm arrays, then observed
+    '__init__': [['nb:10110:p', 'nr:-', 'ct:5:6:-1', 'ob:7:hash'], ['nb:1:t', 'nr:0.1', 'ct:5:6:-1', 'ct:5:6:-1', 'ob:7:hash', 'dv:7:begin_parse', 'lr:9', 'ob:8:hash'],
+                 ['nb:10110101:p', 'nr:0', 'ct:5:6:-1', 'dv:7:to_builder', 'sr:8:1', 'ob:7:hash']],
     'get_data_bytes': [['nb:10110:p', 'nr:-', 'ct:5:6:-1', 'ob:7:hash'], ['nb:1:t', 'nr:0', 'ct:5:6:-1', 'ct:5:6:-1', 'ob:7:hash', 'dv:7:begin_parse'],
                        ['nb:10110101:p', 'nr:-', 'ct:5:6:-1']],
 }
